@@ -353,7 +353,10 @@ def diagnose(d, o):
         for e, i in w[1:-1]:
             if st == "out" and e == ":G" and i < n:
                 st = "grp"
+                g = i
             elif st == "grp" and e == ":s" and i < n:
+                if tests[i][0] != tests[g][0]:
+                    return "a test was started inside the group segment of another group"
                 st = ("tst", i)
             elif st == "grp" and e == ":g":
                 st = "out"
